@@ -281,6 +281,27 @@ pub fn run(tier: &str) -> i32 {
             }
         }));
     }
+    // operands whose reported paths would render to the same text under sloppy path rendering (quotes inside names)
+    {
+        let uni2 = uni.clone();
+        jobs.push(Box::new(move |run, acc| {
+            let mut cells = vec![];
+            for a in &uni2 {
+                for b in &uni2 {
+                    cells.push(obj(&[("a", a), ("\"a\"", b), ("'a'", a)]));
+                }
+            }
+            for op in Op::ALL {
+                for (l, r) in [("@[\"a\"]", "@['\"a\"']"), ("@['\"a\"']", "@.a"), ("value(@[\"a\"])", "@['\"a\"']")] {
+                    let q = format!("$[?{}{}{}]", l, op.text(), r);
+                    let ast = parse(&q);
+                    if let Some(ids) = packed(run, acc, &q, &ast, &cells, &wrap_arr, "operands with quote characters in their names") {
+                        acc.nontrivial += ids.len() as u64;
+                    }
+                }
+            }
+        }));
+    }
     // form 2: @.x OP literal and literal OP @.x
     for (txt, _) in lits.clone() {
         let cells: Vec<Value> = uni.iter().map(|a| obj(&[("x", a)])).collect();
